@@ -64,6 +64,7 @@ M("C06", TAD, "PlayerOne.value_iteration_rewards", "if next_state_exp_rewards >=
 M("C06", TAD, "Solver.value_iteration_reachability", "if self.state_list[0].reach_probability == 0 and prune_states:", "if self.state_list[0].reach_probability == 0 or prune_states:", "C06.2", "no-solution guard with or")
 M("C06", TAD, "Solver.solve_reachability", 'raise ValueError("There must be at least one final state to solve reachability.")', 'raise KeyError("There must be at least one final state to solve reachability.")', "C06.1", "KeyError raised")
 M("C06", TAD, "PlayerTwo.get_worst_strategies_total_rewards", "        if len(self.next_states) == 0:\n            return []\n", "", "C06.3b", "emptiness test removed before next_states[0]")
+M("C06", TAD, "Solver.prune_states", "finished = set(not_reachable_states_new) == set(not_reachable_states)", "finished = set(not_reachable_states_new) == set(reachable_states)", "C06.4", "fixed-point test compares the wrong sets (may never terminate)")
 # ---- C07 -------------------------------------------------------------------------------------------------------------
 M("C07", RDFS, "reverse_dfs", "for final_state in final_states:", "for final_state in final_states[:1]:", "C07.2", "search from the first final state only")
 M("C07", RDFS, "add_missing_states", "for state in range(number_of_states):", "for state in range(number_of_states - 1):", "C07.6", "last state has no table entry")
